@@ -208,6 +208,55 @@ def gen_biglen(rng):
     return tuple(ops)
 
 
+def gen_lopsided(rng):
+    """a set of many scattered blocks against a set of one or two, the small one's blocks being siblings of /
+    equal to / inside / next to members of the big one - both orders, plain and augmented operators and update():
+    an implementation may treat operands of very different sizes differently (a seeded change inserted the
+    blocks of a much smaller operand one by one - and merged *the operand's own key objects* in place)"""
+    ver = 6 if rng.random() < 0.3 else 4
+    w = W[ver]
+    p = rng.choice([w - 8, w - 8, w - 4, w - 2, w - 12, w]) if rng.random() < 0.8 else rng.randrange(8, w + 1)
+    nslots = 1 << min(p, 20)
+    nbig = rng.choice([9, 10, 12, 17, 24, 33, 40])
+    base_slot = rng.choice([0, nslots - 4 * nbig - 4, rng.randrange(max(1, nslots - 4 * nbig - 4))])
+    base_slot = max(0, base_slot) & ~3
+    step = rng.choice([2, 2, 4])                     # even slots: no two members are siblings or adjacent when step == 4
+    slots = [base_slot + step * i for i in range(nbig) if base_slot + step * i < nslots]
+    sh = w - p
+    big = tuple(('N', ver, s << sh, p, 'net') for s in slots)
+    small = []
+    for _ in range(rng.choice([1, 1, 1, 2])):
+        s0 = rng.choice(slots)
+        k = rng.random()
+        if k < 0.5:
+            small.append(('N', ver, (s0 ^ 1) << sh, p, rng.choice(['net', 'str'])))            # the sibling
+        elif k < 0.65 and p < w:
+            small.append(('N', ver, ((s0 ^ 1) << sh) | (rng.getrandbits(1) << (sh - 1)), p + 1, 'net'))   # half of the sibling
+        elif k < 0.8:
+            small.append(('N', ver, s0 << sh, p, 'net'))                                         # a member itself
+        elif k < 0.9 and p > 1:
+            small.append(('N', ver, (s0 >> 1) << (sh + 1), p - 1, 'net'))                      # the parent
+        else:
+            small.append(('N', ver, (min(s0 + 1, nslots - 1)) << sh, p, 'net'))
+    ops = [('new', 0, 'list', big), ('new', 1, 'list', tuple(small))]
+    probe = ('N', ver, (rng.choice(slots) ^ 1) << sh, w, 'addr')
+    for _ in range(rng.randrange(1, 4)):
+        a, b = (0, 1) if rng.random() < 0.6 else (1, 0)
+        k = rng.random()
+        if k < 0.35:
+            ops.append(('bin', 2, a, b, rng.choice(['or', 'or', 'xor', 'sub', 'and'])))
+        elif k < 0.55:
+            ops.append(('bin', a, a, b, rng.choice(['or', 'or', 'xor', 'sub', 'and'])))       # augmented spelling
+        elif k < 0.8:
+            ops.append(('upd', a, 'set', b))
+        else:
+            ops.append(('new', 2, 'set', a))
+            ops.append(('upd', 2, 'set', b))
+        ops.append(('q', b, a, probe))
+        ops.append(('q', a, 2, probe))
+    return tuple(ops)
+
+
 def shuffle4(rng):
     l = ['or', 'and', 'sub', 'xor']
     rng.shuffle(l)
@@ -222,6 +271,8 @@ def gen_history(rng, tier, raw=False):
         return gen_seam(rng)
     if r0 < 0.28:
         return gen_biglen(rng)
+    if r0 < 0.33:
+        return gen_lopsided(rng)
     wins = _hot_windows(rng)
     n = rng.randrange(1, 13 if tier == 'quick' else 31)
     ops = []
